@@ -33,6 +33,7 @@ var (
 	c13sibling   = core.RegCounter("c13.sibling_histories_compared")
 	c13bytes     = core.RegCounter("c13.bytes_compared")
 	c13big       = core.RegCounter("c13.ops_longer_than_two_blocks")
+	c13huge      = core.RegCounter("c13.lengths_around_65536")
 )
 
 var c13lens = []int{0, 1, 2, 3, 31, 32, 64, 100, 156, 157, 158, 159, 160, 161, 162, 163, 164, 165, 166, 167, 168, 169, 170, 200, 326, 327, 328, 329, 330, 331, 332, 333, 334, 500, 1024}
@@ -47,6 +48,10 @@ func c13len(r *core.Run, thorough bool) int {
 		n = t.W(700)
 		if thorough && t.W(8) == 0 {
 			n = t.W(5000)
+		}
+		if t.W(200) == 199 {
+			n = 65530 + t.W(12) // lengths around 2^16: a length prefix narrower than 32 bits shows here
+			r.Count(c13huge)
 		}
 	default:
 		n = c13lens[t.W(len(c13lens))]
